@@ -35,6 +35,7 @@ const (
 	CExcerpt       Call = "excerpt"        // ResolveExcerpt(shared)
 	CQueryOpen     Call = "query-open"     // Query(status:open)
 	CQueryNil      Call = "query-nil"      // Query(nil)
+	CQuerySearch   Call = "query-search"   // Query with a full-text search term (goes through the search index)
 	CPrefix        Call = "prefix"         // ResolvePrefix(shared[:8])
 	CSnapshot      Call = "snapshot"       // Resolve(shared).Snapshot()
 )
@@ -497,6 +498,9 @@ func (e *env) do(name string, call Call) []Issued {
 		_, _ = bugs.Query(q)
 	case CQueryNil:
 		_, _ = bugs.Query(nil)
+	case CQuerySearch:
+		q, _ := query.Parse("shared status:open")
+		_, _ = bugs.Query(q)
 	case CPrefix:
 		_, _ = bugs.ResolvePrefix(string(e.shared)[:8])
 	case CSnapshot:
